@@ -109,7 +109,7 @@ def make_case(args):
     dirs = None
     order = "1d"
     if not oned:
-        dirs, order = gen.gen_dirs(rng, nd, order=rng.choice(["sorted", "sorted", "rotated", "reversed", "seam"]), exact=exact)
+        dirs, order = gen.gen_dirs(rng, nd, order=rng.choice(["sorted", "sorted", "rotated", "reversed", "seam", "sorted360"]), exact=exact)
     dtype = "float64" if exact or rng.random() < 0.6 else "float32"
     nextra = rng.choice([0, 0, 1, 2])
     names = rng.sample(["time", "site", "lat"], nextra)
@@ -122,6 +122,10 @@ def make_case(args):
         Es.append(E)
         kinds.append(kind)
     arr = np.array(Es).reshape(tuple(shape) + (nf, nd))
+    if rng.random() < 0.1:
+        # flume-scale amplitudes (Hs well below a millimetre), exact power-of-two scaling: the peak is where it was
+        arr = arr * 2.0 ** -rng.randint(26, 34)
+        kinds = [k + ":tiny" for k in kinds]
     if oned:
         arr = arr[..., 0]
     da = gen.make_da(freq, dirs, arr, dtype=dtype, extra=extra)
